@@ -3,7 +3,7 @@ Model/Io.v with the library's ToHtml machinery + impl-side oracle."""
 import html, itertools
 from vlib import *
 
-ALPHA = ['<', '>', '&', '"', "'", 'a', 'é', '€', '𝄞']
+ALPHA = ['<', '>', '&', '"', "'", 'a', 'é', '€', '𝄞', '¢', 'ü']    # ¢ = C2 A2, ü = C3 BC: continuation bytes that are a special byte + 0x80
 SPECIAL = set(b'<>&"\'')
 
 def chunkings(chars, rng, limit):
@@ -41,7 +41,7 @@ def sched_str(s):
 
 def schedules_for(nbytes, rng, tier):
     """exhaustive short schedules + failure at every offset of the rendering + random ones"""
-    toks = ['a1', 'a2', 'a7', 'i', 'f7', 'a0']
+    toks = ['a1', 'a2', 'a7', 'i', 'f7', 'a0', 'w8']
     out = [[]]
     L = 3 if tier == "quick" else 4
     for l in range(1, L + 1):
@@ -50,14 +50,14 @@ def schedules_for(nbytes, rng, tier):
         out.append(['a1'] * off + ['f%d' % (off + 1)])
         out.append(['a1', 'i'] * off + ['a0'])
     for _ in range(20):
-        out.append([rng.choice(['a1', 'a2', 'a3', 'a5', 'i', 'i', 'a100']) for _ in range(rng.randint(1, 30))] + rng.choice([[], ['f3'], ['a0']]))
+        out.append([rng.choice(['a1', 'a2', 'a3', 'a5', 'i', 'i', 'a100']) for _ in range(rng.randint(1, 30))] + rng.choice([[], ['f3'], ['a0'], ['w4', 'a100']]))
     return out
 
 def no_fault(s):
-    return all(t != 'a0' and not t.startswith('f') for t in s)
+    return all(t != 'a0' and not t.startswith('f') and not t.startswith('w') for t in s)
 
 def gen_cases(pid, tier, rng):
-    wrappers = ['D'] if pid == "C02" else ['H', 'B', 'HB', 'BB', 'D']
+    wrappers = ['D'] if pid == "C02" else ['H', 'B', 'HB', 'BB', 'D', 'FB']
     cases = []   # (wrapper, pieces(list of str), sched(list))
     # thorough: exhaustive to length 5 for the one wrapper of C02 (2*10^7 cases, ~15 min, ~12 GB); C06 has five wrappers:
     # exhaustive to length 4 plus a sample of length 5 keeps it at ~10^7 cases
@@ -69,7 +69,7 @@ def gen_cases(pid, tier, rng):
         strings += [[rng.choice(ALPHA) for _ in range(5)] for _ in range(4000)]
     for _ in range(300 if tier == "quick" else 3000):
         n = rng.choice([6, 8, 17, 64, 300, 4096 if tier != "quick" else 1000])
-        strings.append([rng.choice(ALPHA + ['b', ' ', '\n', '\0', '\x7f', 'ÿ', ' ', '!', '\t', 'c', 'd']) for _ in range(rng.randint(4, n))])
+        strings.append([rng.choice(ALPHA + ['b', ' ', '\n', '\0', '\x7f', 'ÿ', ' ', '!', '\t', 'c', 'd', '§', '¼', '¾', 'ç', 'æ', 'þ', '¦', '、', '\u2026']) for _ in range(rng.randint(4, n))])
     # a special byte right after a byte below it, at every position of an 8/16-byte window (word-at-a-time scans)
     for sp in '"&\'<>':
         for pre in ' !\n\t#~a':
@@ -113,11 +113,13 @@ def oracle(case, out, full):
         # a fault can only be skipped if the rendering finished before the fault was reached
         pass
     if res.startswith('io'):
-        codes = [t[1:] for t in sc if t.startswith('f')]
+        codes = [t[1:] for t in sc if t.startswith('f') or t.startswith('w')]
         if res[2:] not in codes: return "returned an error the sink never produced"
-    if w == 'D' or w in ('B', 'BB'):
+    if w == 'D' or w in ('B', 'BB', 'FB'):
         if any(c in SPECIAL - {ord('&')} for c in full): return "raw special byte in escaped output"
-        if html.unescape(full.decode()) .encode() != text: return "decoding the output does not give back the Display text"
+        try: dec = html.unescape(full.decode()).encode()
+        except UnicodeDecodeError: return "the escaped output is not valid UTF-8 although the Display text is"
+        if dec != text: return "decoding the output does not give back the Display text"
     if w in ('H', 'HB'):
         if full != text: return "Html(..) output differs from the Display text"
     if len(f) >= 4:
